@@ -68,3 +68,8 @@ chk("C02", "exploration",
     "Exhaustive inside a stated scope: every pointer graph on n <= 4 nodes with two outgoing edges per node over struct-field and interface edges, n <= 3 (thorough 4) over slice, map and pointer-to-pointer/array edges, decoded into typed and interface{} destinations; every sequence of <= 3 of 20 reference-consuming item kinds followed by a repeated string and a shared pointer in 4 container positions. Oracles: decoded graph has the unfolding of the original (bisimulation on Go values), the stream parsed by the independent reader denotes the graph, each distinct reachable object is written once, termination.",
     "Scope hypothesis (node count, out-degree 2); gen.Bisimilar and hpref are the trusted oracles.",
     "bounded-exhaustive enumeration of pointer graphs and reference-table prefixes against bisimulation and an independent reader", "DESIGN.md 3 C02", "enum")
+
+chk("C06", "exploration",
+    "Exhaustive inside a stated scope: 79 hand-built wire token spellings (including forms this encoder never emits: long-form small integers, single-character and empty strings in long form, references to strings / bytes / lists / field names, objects with extra, missing and reordered fields, maps standing for objects) x 62 destination types x 7 container positions x {simple, reference}; oracles: position independence (differential), exact-or-error for the cells of the conversion table with defined semantics, no panic.",
+    "The exact-or-error table is deliberately small; undefined cells are only subject to position independence and no-panic. The lenient numeric narrowing of the decoder is recorded as known findings (asserted by the repository's own tests).",
+    "bounded-exhaustive enumeration of token x destination x position against a differential oracle and a conversion table", "DESIGN.md 3 C06", "enum")
